@@ -1,7 +1,7 @@
 (* Entry points of the extracted model: [run cmd arg]. *)
 From Coq Require Import NArith List Bool.
 From PV Require Import Base.Sx Model.Forest Model.Table Model.LRDriver Model.Scan Model.Parser
-  Validators.TableStruct Validators.ForestSound Extract.Codec.
+  Validators.TableStruct Validators.ForestSound Validators.TableComplete Extract.Codec.
 Import ListNotations.
 Local Open Scope N_scope.
 
@@ -49,6 +49,13 @@ Definition run_forest_trees (s : sx) : sx :=
   if (sxN (sx_nth s 1)) <? root_count F then L [A 0; L []]
   else L [A 1; L (map sx_of_tree (last (all_trees F) []))].
 
+(* 8: table_complete (grammar table ann first nullable stop) *)
+Definition run_table_complete (s : sx) : sx :=
+  let ann := map (fun st => map (fun it => (sxN (sx_nth it 0), sxNat (sx_nth it 1), sxNs (sx_nth it 2)))
+                                (sxL st)) (sxL (sx_nth s 2)) in
+  ofB (table_complete (grammar_of_sx (sx_nth s 0)) (table_of_sx (sx_nth s 1)) ann
+                      (map sxNs (sxL (sx_nth s 3))) (map sxB (sxL (sx_nth s 4))) (sxN (sx_nth s 5))).
+
 Definition run (cmd : N) (arg : sx) : sx :=
   match cmd with
   | 1 => run_forest_stats arg
@@ -58,5 +65,6 @@ Definition run (cmd : N) (arg : sx) : sx :=
   | 5 => run_tree_ok arg
   | 6 => run_forest_ok arg
   | 7 => run_forest_trees arg
+  | 8 => run_table_complete arg
   | _ => L [A 999999]
   end.
